@@ -21,6 +21,7 @@ import (
 	"strconv"
 	"strings"
 	"sync"
+	"sync/atomic"
 	"time"
 )
 
@@ -151,7 +152,17 @@ func main() {
 	if spec == nil {
 		die2("unknown property %s", id)
 	}
-	os.Exit(runCheck(spec, tier))
+	code := runCheck(spec, tier)
+	if code == 2 && atomic.LoadInt64(&resourceDeaths) > 0 && os.Getenv("VERIF_WORKERS") == "" {
+		// workers were killed by the system while each of their runs passes alone: the tree under
+		// test needs more memory than 16 parallel workers leave (e.g. a preallocation knob that no
+		// longer applies to changed code). Repeat once with few workers instead of giving up.
+		fmt.Println("NOTE workers were killed by the system although their runs pass alone; repeating the check with 3 workers")
+		os.Setenv("VERIF_WORKERS", "3")
+		atomic.StoreInt64(&resourceDeaths, 0)
+		code = runCheck(spec, tier)
+	}
+	os.Exit(code)
 }
 
 func findProp(id string) *PropSpec {
@@ -437,6 +448,9 @@ func runWorkerResilient(bin string, spec *PropSpec, part Part, tier string, t Ti
 		case r2.err == "":
 			mu.Lock()
 			*problems = append(*problems, fmt.Sprintf("%s (run %d) but the run passes alone: not reproducible\n%s", r.err, k, tail(r.out, 30)))
+			if strings.Contains(r.err, "killed") {
+				atomic.AddInt64(&resourceDeaths, 1)
+			}
 			mu.Unlock()
 			out = append(out, r2)
 		default:
@@ -485,6 +499,8 @@ func replayOnce(bin string, spec *PropSpec, part Part, file string, dir string) 
 	return code, string(out)
 }
 
+var resourceDeaths int64
+
 func numWorkers() int {
 	if v := os.Getenv("VERIF_WORKERS"); v != "" {
 		if n, err := strconv.Atoi(v); err == nil && n > 0 {
@@ -509,6 +525,16 @@ func runCheck(spec *PropSpec, tier string) int {
 	if v := os.Getenv("VERIF_RUNS"); v != "" {
 		if n, err := strconv.Atoi(v); err == nil {
 			t.Runs = n
+		}
+	}
+	if v := os.Getenv("VERIF_WALL"); v != "" { // wall-clock budget of the search in seconds
+		if n, err := strconv.Atoi(v); err == nil && n > 0 {
+			t.WallS = n
+		}
+	}
+	if v := os.Getenv("VERIF_WALL_SCALE"); v != "" { // e.g. 0.33: a third of the tier's budget
+		if f, err := strconv.ParseFloat(v, 64); err == nil && f > 0 {
+			t.WallS = int(float64(t.WallS)*f) + 1
 		}
 	}
 	seed := uint64(1)
